@@ -1,7 +1,7 @@
 """C13 — custom chunks: any number set, all retrievable, audio untouched."""
 import json, os, subprocess, time
 from .. import chunks as C
-from ..core import Violation, VERIF
+from ..core import Violation, VERIF, modules_for
 
 PRINTABLE = bytes(range(0x21, 0x7f))
 RESERVED = {
@@ -308,7 +308,7 @@ def custom_only(lines, ids):
 def run(ctx):
     if getattr(ctx, "replay", None):
         return ctx.replay_script(ctx.replay)
-    failed = ctx.lean_stage(["SfProps.C13"])
+    failed = ctx.lean_stage(modules_for("C13"))
     found_input = False
     if not os.path.exists(ctx.sfmodel()):
         ctx.violation("lean-stage", "the model driver does not build: %s\n%s" % (", ".join(failed), ctx.notes.get("lean_log_tail", "")), no_input=True)
